@@ -1,26 +1,37 @@
 (* C17 — exceptions from configurables keep their type, data and traceback (PARTIAL).
    What is proved is the attribute-resolution argument over the measured attribute table of the class (Python's
-   lookup order on the proxy: type-level data descriptor, instance dict, other class-level attribute, __getattr__);
-   CPython's constructors and struct layouts are measured by the harness, not modelled. *)
+   lookup order on the proxy: type-level data descriptor, instance dict, other class-level attribute, __getattr__)
+   and over which constructions of the stand-in succeed; CPython's constructors and struct layouts are measured by
+   the harness, not modelled. *)
 From Coq Require Import List String ZArith Bool.
 From GinV Require Import Lib.Out Model.ExcProxy.
 Import ListNotations.
 Open Scope string_scope.
 Open Scope list_scope.
 
-(* current (repaired) code: the exception class is never lost and every public attribute of the original reads the
-   same on what the caller catches — whatever the class's attribute table and whichever constructions succeed *)
-Theorem C17_all_attributes_equal : forall from_args from_nothing attrs,
-  run (true, (from_args, from_nothing), attrs) = OT "Proxy" [OL (map (fun a => OL [OS (fst a); OB true]) attrs)].
+(* current (repaired) code: the exception class is NEVER lost — the caller receives either a stand-in on which every
+   public attribute of the original reads the same, or the original itself — whatever the class's attribute table and
+   whichever constructions succeed *)
+Theorem C17_class_never_lost : forall c attrs,
+  run (true, c, attrs) = OT "Original" [] \/
+  run (true, c, attrs) = OT "Proxy" [OL (map (fun a => OL [OS (fst a); OB true]) attrs)].
 Proof.
-  intros fa fn attrs. unfold run, run_gen, constructed, current. cbn [negb r_new r_slots r_dict].
-  rewrite Bool.orb_true_r. cbn [negb]. do 3 f_equal. apply map_ext. intros [n k]. unfold reads_same. cbn [snd fst r_slots r_dict].
-  destruct k; reflexivity.
+  intros [[[sub fa] fn] fb] attrs. unfold run, run_gen. cbn [negb].
+  destruct (negb (constructed current sub fa fn fb)); [left; reflexivity|right].
+  do 3 f_equal. apply map_ext. intros [n k]. unfold reads_same, current. cbn [snd fst r_slots r_dict]. destruct k; reflexivity.
+Qed.
+
+Theorem C17_all_attributes_equal : forall sub fa fn fb attrs,
+  constructed current sub fa fn fb = true ->
+  run (true, (sub, fa, fn, fb), attrs) = OT "Proxy" [OL (map (fun a => OL [OS (fst a); OB true]) attrs)].
+Proof.
+  intros sub fa fn fb attrs H. unfold run, run_gen. rewrite H. cbn [negb]. do 3 f_equal. apply map_ext.
+  intros [n k]. unfold reads_same, current. cbn [snd fst r_slots r_dict]. destruct k; reflexivity.
 Qed.
 
 (* exceptions that are not Exception subclasses pass through untouched *)
 Theorem C17_non_exception_passthrough : forall r c attrs, run_gen r (false, c, attrs) = OT "PassThrough" [].
-Proof. intros r [a b] attrs. reflexivity. Qed.
+Proof. intros r [[[a b] c] d] attrs. reflexivity. Qed.
 
 (* attributes living only in the instance dict, or only on the class, always read the same *)
 Theorem C17_plain_attributes_forwarded : forall r n, reads_same r (n, ADict) = true /\ reads_same r (n, AClass) = true.
@@ -28,24 +39,33 @@ Proof. intros. split; reflexivity. Qed.
 
 (* each repair is needed: the code before it read an attribute differently or lost the class *)
 Theorem C17_slots_repair_needed :
-  reads_same {| r_slots := false; r_dict := true; r_new := true |} ("args", ASlot false) = false.
+  reads_same {| r_slots := false; r_dict := true; r_new := true; r_fallback := true |} ("args", ASlot false) = false.
 Proof. reflexivity. Qed.
 Theorem C17_dict_repair_needed :
-  reads_same {| r_slots := true; r_dict := false; r_new := true |} ("code", ADictShadow) = false.
+  reads_same {| r_slots := true; r_dict := false; r_new := true; r_fallback := true |} ("code", ADictShadow) = false.
 Proof. reflexivity. Qed.
 Theorem C17_new_repair_needed : forall attrs,
-  run_gen {| r_slots := true; r_dict := true; r_new := false |} (true, (false, false), attrs) = OT "ClassLost" [OS "TypeError"].
+  run_gen {| r_slots := true; r_dict := true; r_new := false; r_fallback := false |} (true, (true, ATypeError, ATypeError, true), attrs) = OT "ClassLost" [].
 Proof. reflexivity. Qed.
+Theorem C17_fallback_repair_needed : forall attrs,
+  (* a class that cannot be subclassed without class keywords; an exception group whose args were re-assigned; a __new__
+     that raises something other than TypeError on the original's args *)
+  run_gen {| r_slots := true; r_dict := true; r_new := true; r_fallback := false |} (true, (false, AOk, AOk, true), attrs) = OT "ClassLost" [] /\
+  run_gen {| r_slots := true; r_dict := true; r_new := true; r_fallback := false |} (true, (true, ATypeError, ATypeError, false), attrs) = OT "ClassLost" [] /\
+  run_gen {| r_slots := true; r_dict := true; r_new := true; r_fallback := false |} (true, (true, AOtherError, AOk, true), attrs) = OT "ClassLost" [].
+Proof. repeat split; reflexivity. Qed.
 (* kept under its earlier name: the original code (no repair at all) *)
 Theorem C17_orig_refuted :
-  (exists a, reads_same {| r_slots := false; r_dict := false; r_new := false |} a = false) /\
-  (exists attrs, run_gen {| r_slots := false; r_dict := false; r_new := false |} (true, (false, false), attrs) = OT "ClassLost" [OS "TypeError"]).
+  (exists a, reads_same {| r_slots := false; r_dict := false; r_new := false; r_fallback := false |} a = false) /\
+  (exists attrs, run_gen {| r_slots := false; r_dict := false; r_new := false; r_fallback := false |} (true, (true, ATypeError, ATypeError, true), attrs) = OT "ClassLost" []).
 Proof. split; [exists ("args", ASlot false) | exists []]; reflexivity. Qed.
 
+Print Assumptions C17_class_never_lost.
 Print Assumptions C17_all_attributes_equal.
 Print Assumptions C17_non_exception_passthrough.
 Print Assumptions C17_plain_attributes_forwarded.
 Print Assumptions C17_slots_repair_needed.
 Print Assumptions C17_dict_repair_needed.
 Print Assumptions C17_new_repair_needed.
+Print Assumptions C17_fallback_repair_needed.
 Print Assumptions C17_orig_refuted.
